@@ -43,7 +43,7 @@ const TEXTS: [&str; 25] = [
     "#hash;semi",
 ];
 
-const FILES: [&str; 7] = ["audio.mp3", "dir/a b.mp3", "a:b.mp3", "\u{FC}.ogg", "x", "", "a.b.c.wav"];
+const FILES: [&str; 10] = ["audio.mp3", "dir/a b.mp3", "a:b.mp3", "\u{FC}.ogg", "x", "", "a.b.c.wav", "\"Heroes\" (TV Size).mp3", "audio/12\"", "\"q\""];
 const BG_FILES: [&str; 6] = ["bg.jpg", "dir/x y.png", "\u{FC}.png", "", "a:b.jpg", "v.mp4"];
 
 #[derive(Clone, Debug, PartialEq)]
@@ -78,7 +78,9 @@ fn combo_colors(i: usize) -> Vec<Color> {
     match i {
         0 => vec![],
         1 => vec![Color::new(1, 2, 3, 255)],
-        _ => vec![Color::new(0, 0, 0, 255), Color::new(255, 255, 255, 255), Color::new(18, 124, 255, 255)],
+        2 => vec![Color::new(0, 0, 0, 255), Color::new(255, 255, 255, 255), Color::new(18, 124, 255, 255)],
+        // more than nine: the encoder numbers them Combo1.., two-digit numbers included
+        _ => (0..12u8).map(|k| Color::new(10 * k, 200 - 7 * k, k, 255)).collect(),
     }
 }
 
@@ -236,7 +238,7 @@ pub fn all_edits() -> Vec<Edit> {
     }
     v.extend((0..4u8).map(Edit::Mode));
     v.extend((0..4u8).map(Edit::Countdown));
-    v.extend((0..3).map(Edit::ComboColors));
+    v.extend((0..4).map(Edit::ComboColors));
     v.extend((0..3).map(Edit::CustomColors));
     v.extend((0..5).map(Edit::Breaks));
     v
